@@ -5,6 +5,7 @@ import (
 	"flag"
 	"fmt"
 	"os"
+	"os/exec"
 	"runtime/debug"
 	"sort"
 	"strconv"
@@ -131,6 +132,29 @@ func cmdCheck(args []string) (status int) {
 			}
 		}
 		r.Findings = keep
+	}
+	if *tier == "thorough" && *mutant == "" && *arch == "" && os.Getenv("NASVERIF_NO_SELFTEST") == "" {
+		// the same rules on a 32-bit target (int and uintptr are 32 bits wide: matters for
+		// int(uint16)-2, uint32(len)*8, ...): the verdict must not differ
+		cmd := exec.Command(os.Args[0], "check", id, "--tier", "quick", "--arch", "386", "--no-evidence")
+		cmd.Env = append(os.Environ(), "NASVERIF_NO_SELFTEST=1")
+		out, err := cmd.CombinedOutput()
+		r.rule("arch.386").Sites++
+		code := 0
+		if ee, ok := err.(*exec.ExitError); ok {
+			code = ee.ExitCode()
+		} else if err != nil {
+			code = 2
+		}
+		want := 0
+		if r.Unlisted() > 0 {
+			want = 1
+		}
+		if code != want {
+			r.Fail("arch.386", "-", "GOARCH=386", 0, fmt.Sprintf("the verdict under GOARCH=386 differs (exit %d, expected %d): %s", code, want, lastLines(string(out), 4)), nil)
+		} else {
+			r.OK("arch.386")
+		}
 	}
 	if *tier == "thorough" && *mutant == "" && os.Getenv("NASVERIF_NO_SELFTEST") == "" {
 		if st := runSelftestFor(id, r); st != 0 && len(r.Findings) == 0 {
